@@ -277,6 +277,24 @@ def run_level(ctx, broken, seen_keys):
             site_dist[str(k)] = site_dist.get(str(k), 0) + 1
             (small if len(c["U"]) <= 64 else big).append((i, rec, c, out))
         ev["calls_handing_on_an_evaluated_point"] += n_hit_calls
+        # provenance: "every candidate set handed on for evaluation" IS a filter output -- every evaluated point other than the start
+        # (and its noise-test repeat) must be a row of the output of a contraints_check call made by bads.py before that evaluation
+        rows_so_far, ci, orphan = set(), 0, []
+        for j, e in enumerate(r["evals"]):
+            while ci < e["after_call"]:
+                if calls[ci]["site"] == "bads" and calls[ci]["out"].ndim == 2:
+                    rows_so_far |= {tuple(x) for x in calls[ci]["out"].tolist()}
+                ci += 1
+            if j == 0 or e["noise_test"]:
+                continue
+            if tuple(e["u"]) not in rows_so_far:
+                orphan.append(e["u"])
+        ev["evaluations_traced_to_a_filter_output"] = ev.get("evaluations_traced_to_a_filter_output", 0) + len(r["evals"]) - len(orphan)
+        if orphan and "evaluated-point-not-filtered" not in seen_keys:
+            seen_keys.add("evaluated-point-not-filtered")
+            ctx.violate("evaluated-point-not-filtered",
+                        f"run D={p['D']} opt={p['opt']} seed={p['seed']} options={p.get('opts')}: evaluated point(s) {orphan[:3]} are not rows of any candidate set "
+                        "returned by contraints_check before the evaluation (the set handed on for evaluation was modified after filtering)", dict(kind="run", p=p))
         # repeated evaluations and their attribution
         unexplained = []
         noise_tests = 0
